@@ -242,11 +242,34 @@ func rcDo(op string, dns []byte) (st string) {
 			st = fmt.Sprintf("PANIC_%v", x)
 		}
 	}()
+	if op == "A" || op == "D" {
+		// NetworkManager is installed (its conf.d exists) and reloading it FAILS (no systemctl on
+		// PATH): the resolv.conf half of activation / deactivation must not depend on that
+		if err := os.MkdirAll(rcNMDir, 0755); err != nil {
+			return "harness:" + err.Error()
+		}
+		old := os.Getenv("PATH")
+		os.Setenv("PATH", "/nonexistent-nvjail-bin")
+		defer os.Setenv("PATH", old)
+		var err error
+		if op == "A" {
+			err = host.SetDNS(string(dns))
+		} else {
+			err = host.ResetDNS()
+		}
+		if err != nil && strings.Contains(err.Error(), "NetworkManager resolver management") {
+			return "errNM"
+		}
+		return rcClassify(err)
+	}
 	if op == "a" {
 		return rcClassify(host.SetDNS(string(dns)))
 	}
 	return rcClassify(host.ResetDNS())
 }
+
+const rcNMDir = "/etc/NetworkManager/conf.d"
+const rcNMFile = rcNMDir + "/nextdns.conf"
 
 // child mode: `nvh resolv-op a <dnshex>` | `nvh resolv-op d`
 func init() {
@@ -319,11 +342,11 @@ func rcToken(s string) string {
 func rcRunCase(line string) (string, rcState, bool) {
 	var z rcState
 	f := strings.Split(line, " ")
-	if len(f) != 8 || f[0] != "rc" {
+	if (len(f) != 8 && len(f) != 9) || f[0] != "rc" {
 		return "bad-op", z, false
 	}
 	get := func(i int, key string) (string, bool) {
-		if !strings.HasPrefix(f[i], key+"=") {
+		if i >= len(f) || !strings.HasPrefix(f[i], key+"=") {
 			return "", false
 		}
 		return f[i][len(key)+1:], true
@@ -378,9 +401,27 @@ func rcRunCase(line string) (string, rcState, bool) {
 	if err := rcPutState(s); err != nil {
 		return "harness:" + err.Error(), z, false
 	}
+	nmTok, hasNM := get(8, "nm")
+	if hasNM {
+		_ = os.MkdirAll(rcNMDir, 0755)
+		_ = os.Remove(rcNMFile)
+		if nmTok == "1" {
+			_ = os.WriteFile(rcNMFile, []byte("[main]\ndns=none\n"), 0644)
+		}
+	} else {
+		_ = os.RemoveAll("/etc/NetworkManager")
+	}
 	var st string
 	ext := s.ext
 	switch {
+	case op == "D" && hasNM && j == 0:
+		st = rcDo("D", nil)
+	case strings.HasPrefix(op, "A:") && hasNM && j == 0:
+		dns, ok := rcUnhex(op[2:])
+		if !ok {
+			return "bad-op", z, false
+		}
+		st = rcDo("A", dns)
 	case op == "d":
 		if j > 0 {
 			st = rcDoCrash("d", nil, fam, j)
@@ -414,6 +455,13 @@ func rcRunCase(line string) (string, rcState, bool) {
 	es := "ok"
 	if !rcExtUnchanged(ext) {
 		es = "CHANGED"
+	}
+	if hasNM {
+		nm := "0"
+		if _, err := os.Stat(rcNMFile); err == nil {
+			nm = "1"
+		}
+		return fmt.Sprintf("st=%s live=%s bak=%s tmp=%s ext=%s nm=%s", st, after.live, after.bak, after.tmp, es, nm), after, true
 	}
 	return fmt.Sprintf("st=%s live=%s bak=%s tmp=%s ext=%s", st, after.live, after.bak, after.tmp, es), after, true
 }
@@ -699,6 +747,36 @@ func resolvArea(c *Ctx) error {
 
 	r := NewRng(c.seed)
 	for c.count < c.n {
+		if r.Chance(8) {
+			// ---- a history on a host where NetworkManager is installed and its reload fails
+			c.Stat("mode:history-networkmanager-reload-fails")
+			var s rcState
+			var tgt string
+			s.live, tgt = rcGenNode(c, r, "orig", 0, 70, 30)
+			s.bak = rcNode{kind: 'A'}
+			s.tmp = rcNode{kind: 'A'}
+			s.ext = rcGenExtFor(c, r, tgt)
+			orig := s.live.String()
+			nm := "0"
+			for i, nops := 0, 1+r.Intn(4); i < nops && c.count < c.n; i++ {
+				op := "D"
+				if i == 0 || r.Chance(60) {
+					op = "A:" + hx([]byte(rcDNS[r.Intn(len(rcDNS))]))
+				}
+				impl, after, ok := emit(rcCaseLine(orig, s, op, "-") + " nm=" + nm)
+				if !ok {
+					break
+				}
+				s = after
+				if k := strings.Index(impl, " nm="); k >= 0 {
+					nm = impl[k+4:]
+				}
+			}
+			if c.count < c.n {
+				emit(rcCaseLine(orig, s, "D", "-") + " nm=" + nm)
+			}
+			continue
+		}
 		if r.Chance(60) {
 			// ---- a history from a pristine system: live = orig, no backup
 			c.Stat("mode:history-from-pristine")
